@@ -337,11 +337,16 @@ def run(ctx):
             if d[0] == 'discr' and any(x[0] == 'call' and x[1].endswith('parse_color_profile_type') for x in walk(d)) \
                     and tm['ty'] == 'isize' and d[1][0] != 'try':
                 # `matches!(profile_type, ICC)` / a match on the decoded enum: the ICC arm (discriminant 2) must refuse
-                icc_edges = [q.thread_bool(b, s_) for v_, s_ in tm['targets'] if v_ == 2]
+                import C10 as _c10v
+                names_ = _c10v.switch_variants(b, sw)          # discriminant value -> variant name, from the enum as it is declared now
+                icc_vals = [v_ for v_, n_ in names_.items() if n_ == 'ICC'] or [2]
+                icc_edges = [q.thread_bool(b, s_) for v_, s_ in tm['targets'] if v_ in icc_vals]
+                if not icc_edges and 'ICC' in names_.values() and tm.get('otherwise') is not None and not any(v_ in icc_vals for v_, _ in tm['targets']):
+                    icc_edges = [q.thread_bool(b, tm['otherwise'])]     # ICC falls into the `_` arm
                 if icc_edges:
                     found_icc += 1
                     ok = all(q.arm_always_err(b, e_) for e_ in icc_edges)
-                    ctx.inst('T4', 'color-profile#icc', ok, 'profile type is ICC (enum discriminant 2) -> %s' % ('Err on every path' if ok else 'NOT always Err'),
+                    ctx.inst('T4', 'color-profile#icc', ok, 'profile type is ICC (by variant name) -> %s' % ('Err on every path' if ok else 'NOT always Err'),
                              tm['span'], key=b.name + '|T4|icc')
         ctx.floor('fixed-gamma flag tests', found_gamma, 1)
         ctx.floor('ICC profile tests', found_icc, 1)
